@@ -503,3 +503,6 @@ def run(ctx):
     # "the result is the last accepted state", as the command line delivers it: what is written is a result of the stages, not
     # the state they started from (C10.R1 written-state obligations)
     import_obligations(ctx, 'C10', 'R7', only_rules={'R1'}, floor=1, only_instances=lambda k: 'written-state' in k)
+    # the state the optimiser is handed (a clone, in the command line) is the input state: clone fidelity (C09.R3)
+    import_obligations(ctx, 'C09', 'R8', only_rules={'R3'}, floor=2)
+
